@@ -72,6 +72,7 @@ class VirtualMachine:
         ret = copy.copy(self)
         ret.registers = self.registers.copy()
         ret.memory = self.memory.copy()
+        ret.expected_returns = self.expected_returns.copy()
         return ret
 
     def run(self, program: Program) -> None:
